@@ -34,7 +34,7 @@ from .c01 import _eq
 M_SRC = '''
 from dataclasses import dataclass, field
 from enum import Enum, IntEnum
-from typing import Optional, Any
+from typing import Optional, Any, ClassVar
 
 
 class Color(Enum):
@@ -77,6 +77,15 @@ class Holder:
 class Holder2:
     """a field NAMED like one of Holder's, with another default"""
     b: Any = 5
+
+
+@dataclass
+class WithClassVar:
+    """class-level attributes are no fields: they are not constructor arguments, whatever their current value"""
+    version: ClassVar[str] = "1.0"
+    count: ClassVar[int]
+    a: Any = None
+    b: Optional[int] = 3
 
 
 @dataclass(frozen=True)
@@ -179,7 +188,9 @@ def run(ctx):
     m = module()
     extra = [m.Frozen(items=(1, 2), name="x"), m.Frozen(items=(), opts={"k": [1, 2], "q": QName("a")}), m.Frozen(items=((1,), [2])),
              m.Holder(a={"k": m.Color.RED}, b=[m.Outer.Inner(x=None), m.Outer.Inner(x=3)]), m.Holder(a=-0.0, b=float("nan")),
-             m.Holder(a=Decimal("NaN").copy_abs() if False else Decimal("1E+2"), b=b"\x00\xff"), m.Holder(a="", b=[])]
+             m.Holder(a=Decimal("NaN").copy_abs() if False else Decimal("1E+2"), b=b"\x00\xff"), m.Holder(a="", b=[]),
+             m.WithClassVar(a=5), m.Holder(a=[m.WithClassVar(a="x", b=None)], b=m.WithClassVar())]
+    m.WithClassVar.version = "2.0"      # (changed after the class was made: still no field)
     for k, obj in enumerate(extra):
         ctx.case(("py-extra", k))
         has_tuple = "(" in repr(getattr(obj, "items", "")) and isinstance(getattr(obj, "items", None), tuple) and bool(obj.items)
